@@ -449,11 +449,17 @@ class Emitter:
             if self.prepared_tag is None:
                 self.prepared_tag = self.prepare_tag(self.event.tag)
             length += len(self.prepared_tag)
+        width = length
         if isinstance(self.event, ScalarEvent):
             if self.analysis is None:
                 self.analysis = self.analyze_scalar(self.event.value)
             length += len(self.analysis.scalar)
-        return (length < 128 and (isinstance(self.event, AliasEvent)
+            # An escaped character takes up to ten columns (\UXXXXXXXX), and
+            # the scanner gives up on a simple key after 1024 characters.
+            width += sum(10 if ch > '\uFFFF' else 6
+                    for ch in self.analysis.scalar)
+        return (length < 128 and width < 1000
+            and (isinstance(self.event, AliasEvent)
             or (isinstance(self.event, ScalarEvent)
                     and not self.analysis.empty and not self.analysis.multiline)
             or self.check_empty_sequence() or self.check_empty_mapping()))
